@@ -247,6 +247,18 @@ def c20_execute(trace, tier, res):
             counters.hit("probe.goal_reaching_episode")
             if best is None or total > best:
                 best = total
+            # the bound is advertised by the environment at any time: ask
+            # again after the episode (and mid-episode states were passed)
+            ub_after = float(env.get_score_upper_bound())
+            adv_after = int(env.get_minimum_hops())
+            counters.hit("probe.bound_requeried_after_episode")
+            if adv_after > ref:
+                raise Violation("C20.hops", "the minimum hop count advertised"
+                                " after an episode exceeds the reference "
+                                "minimum", advertised=adv_after,
+                                reference=ref)
+            if total > min(ub, ub_after) + 1e-6:
+                ub = min(ub, ub_after)
             if total > ub + 1e-6:
                 raise Violation(
                     "C20.bound", "a goal-reaching episode on the real "
